@@ -105,7 +105,7 @@ func init() {
 	Props["C07"] = &PropDef{
 		ID: "C07",
 		Profile: &Profile{Name: "lock", W: map[string]int{"new": 10, "newBatch": 4, "copy": 2, "add": 8, "remove": 5, "exchange": 4, "set": 5, "write": 4, "setRel": 3, "removeEntity": 5,
-			"removeEntities": 4, "addBatch": 2, "removeBatch": 3, "filterNew": 5, "filterReg": 2, "query": 5, "stats": 2, "emit": 2, "obsNew": 1, "obsReg": 1, "read": 2,
+			"removeEntities": 4, "addBatch": 2, "removeBatch": 3, "setRelBatch": 3, "exchangeBatch": 2, "filterNew": 5, "filterReg": 2, "query": 5, "stats": 2, "emit": 2, "obsNew": 1, "obsReg": 1, "read": 2,
 			"qOpen": 14, "qNext": 16, "qClose": 12, "reset": 1, "register": 4, "batchCall": 3},
 			MaxEnts: 25, MinOps: 20, MaxOps: 160, OpenQ: true, MaxOpenQ: 64, Nested: true, Burst: true},
 		Policies: []Policy{{}},
